@@ -8,8 +8,8 @@ import numpy as np
 from . import common, scenes, lifecycle
 
 # frequency vectors and their (size, tag) identity in the model; tag 0 is the default vector [0]
-FREQS = {'Z': ([0.0], (1, 0)), 'F1': ([500.0], (1, 1)), 'F2': ([250.0, 500.0], (2, 1)),
-         'F3': ([250.0, 500.0, 1000.0], (3, 1)), 'G2': ([300.0, 600.0], (2, 2))}
+FREQS = {'Z': ([0.0], (1, 0)), 'F1': ([62.5], (1, 1)), 'F2': ([31.5, 62.5], (2, 1)),
+         'F3': ([31.5, 62.5, 125.0], (3, 1)), 'G2': ([40.5, 80.0], (2, 2))}
 W = 6
 
 
